@@ -59,11 +59,8 @@ Proof. reflexivity. Qed.
 Theorem generated_code_refines_reference_semantics :
   forall (msem : string -> option (list operand) -> dval -> list dval -> comp dval)
          (dotsem : operand -> list (string * option val) -> dval -> comp dval)
-         (callsem : val -> list dval -> comp dval) (awaitsem : val -> comp val),
-    (forall m tf r ds, RefineBase.leaves RefineChain.not_clo (msem m tf r ds)) ->
-    (forall o sn r, RefineBase.leaves RefineChain.not_clo (dotsem o sn r)) ->
-    (forall f ds, RefineBase.leaves RefineChain.not_clo (callsem f ds)) ->
-    forall (cfg : config) (inp : input) (e : Ir.rexpr) (sp : sprog),
+         (callsem : val -> list dval -> comp dval) (awaitsem : val -> comp val)
+         (cfg : config) (inp : input) (e : Ir.rexpr) (sp : sprog),
       RefineProg.wf inp -> Gen.gen cfg inp = Ir.Ok e -> prepare cfg inp = Some sp ->
       den (user_names inp) msem dotsem callsem awaitsem e empty_env = spec msem dotsem callsem awaitsem sp.
 Proof. exact RefineTop.gen_refines_spec. Qed.
@@ -77,13 +74,8 @@ Theorem generated_try_code_first_step :
             option (list Tok.operand) -> Comp.dval -> list Comp.dval -> Comp.comp Comp.dval)
     (dotsem : Tok.operand -> list (String.string * option Comp.val) -> Comp.dval -> Comp.comp Comp.dval)
     (callsem : Comp.val -> list Comp.dval -> Comp.comp Comp.dval)
-    (awaitsem : Comp.val -> Comp.comp Comp.val),
-  (forall (m : String.string) (tf : option (list Tok.operand)) (r : Comp.dval) (ds : list Comp.dval),
-   RefineBase.leaves RefineChain.not_clo (msem m tf r ds)) ->
-  (forall (o : Tok.operand) (sn : list (String.string * option Comp.val)) (r : Comp.dval),
-   RefineBase.leaves RefineChain.not_clo (dotsem o sn r)) ->
-  (forall (f : Comp.val) (ds : list Comp.dval), RefineBase.leaves RefineChain.not_clo (callsem f ds)) ->
-  forall (cfg : Ast.config) (inp : Ast.input) (e : Ir.rexpr) (sp : Spec.sprog),
+    (awaitsem : Comp.val -> Comp.comp Comp.val)
+    (cfg : Ast.config) (inp : Ast.input) (e : Ir.rexpr) (sp : Spec.sprog),
   Ast.is_async cfg = false ->
   Ast.is_try cfg = true ->
   Ast.i_handler inp = None ->
